@@ -366,3 +366,44 @@ PROPS = {
                      'stagnant feedback / mix parameters for the echo theorem',
                      '0 <= feedback < 1 and 0 <= damping <= 1 for the decay bound']},
 }
+
+PROPS['C07'] = {'suites': [{'name': 'chan', 'quick': 2000, 'thorough': 60000}, {'name': 'deliver', 'quick': 480, 'thorough': 6000}],
+ 'technique': 'Lean 4 theorems (core Lean, inductive invariants over all reachable states of a labelled transition system) about a hand-written '
+              'model of command.rs + triple_buffer; the same definitions run as the twin and are diffed against the real CommandWriter/CommandReader '
+              "pairs (sequentially, under scripted two-thread schedules through kira's yield points, and in an unscheduled race) and against "
+              'components driven through the public API',
+ 'level_text': 'Lean theorems, for every interleaving of writer and reader atomic actions (half-writes, publish swap, dirty test, swap, half-reads) '
+               'of any length: the three buffer indices are always a permutation; a read never returns a torn value; a successful read returns the '
+               'latest publish preceding its swap; delivered tags strictly increase (nothing delivered twice); after a burst the next read returns '
+               'the last value and the following read nothing; kinds are independent channels; every listed component reads each of its readers '
+               'exactly once per on_start_processing, so a pending command is applied in the next callback and in no other; a command written before '
+               "pickup is applied in the resource's first callback (with the storage model). The model agrees with real command channels on every "
+               "generated op and schedule, and the delivery schedule agrees with kira's sub-track / static sound / clock / streaming sound",
+ 'level_note': 'atomicity inside triple_buffer is modelled from its source (SeqCst interleavings; weak memory unmodelled); the per-component reader '
+               'lists are transcribed from the Rust source (validated by the deliver suite for track volume, static seek_by, clock ticking, '
+               'streaming seek_to — not for every kind of every handle); the streaming decoder reads its readers only while its thread runs: '
+               'C07_drained_once_decoder_partial, refuted beyond that by C07_streaming_command_lost_after_end (known finding)',
+ 'assumptions': ['sequentially consistent interleaving of the atomic actions of triple_buffer (AcqRel swaps around exclusive buffers)',
+                 'one writer thread and one reader thread per channel (both ends are used through &mut)']}
+
+PROPS['C08'] = {'suites': [{'name': 'storage', 'quick': 5000, 'thorough': 100000}, {'name': 'life', 'quick': 2500, 'thorough': 50000}],
+ 'technique': 'Lean 4 theorems (core Lean, inductive invariants over all reachable states of a labelled transition system) about a hand-written '
+              'model of backend/resources.rs + atomic-arena + rtrb; the same definitions run as the twin and are diffed against the real '
+              "ResourceStorage / SelfReferentialResourceStorage / ResourceController (histories and scripted two-thread schedules through kira's "
+              'yield points) and against AudioManager driven through the public API with callbacks on a dedicated thread',
+ 'level_text': 'Lean theorems, for every capacity > 0 and every interleaving of the create path (reserve, drain unused, push new; flag stores) with '
+               "the audio thread's remove-and-add (visit, remove, push unused, pop new, insert): count = reserved + in-ring + alive + "
+               'flagged-not-yet-removed <= capacity and try_reserve succeeds iff count < capacity; the new-resource ring, the arena insert and '
+               'try_reserve never fail; a flagged resource in the arena when a callback begins is out of it (slot freed, generation bumped) when its '
+               'drain loop ends; generations never decrease and a stale key never resolves again; audio-thread steps move resources but never '
+               'destroy them; with removal + push atomic, unused + new + arena <= capacity and no step panics. The model agrees with the real '
+               'storages on every generated history and schedule, and with AudioManager for sounds, sub-tracks, send tracks, clocks, modulators, '
+               'listeners',
+ 'level_note': "C08_queue_bounds holds only at the granularity of the existing yield sites (C08_queue_bounds_partial): at the code's granularity the "
+               'unused-ring push can overflow (C08_queue_bounds_refuted_fine, replayable on the real code once the yield site of hook_request.diff '
+               "exists); capacity 0 panics (C08_capacity_zero_panics, known finding); atomic-arena's CAS loops are modelled as single atomic actions "
+               '(one reserver, one freer); rtrb as a linearizable FIFO; destruction when whole rings/storages are dropped is outside the model '
+               '(exercised by the drop-thread oracle); C08_selfref_keys is stated for the sequential operations',
+ 'assumptions': ['capacity > 0 (capacity 0 is the recorded defect)',
+                 'one creation in flight per controller (every kira caller holds &mut on the controller)',
+                 'generation counters do not wrap']}
